@@ -56,6 +56,27 @@ def sweep(ck):
                 if np.any(np.abs(np.abs(r.Hxy[sel]) - 1) > 0.3):
                     ck.violation("y = delayed x: |Hxy| far from 1 (backend %s)" % be, inp, tag="delaymag:" + be)
             ref[be] = r.Hxy.copy()
+            # the estimate (and its phase views) is the same before and after the conjugate / residual / export views are read
+            h0 = np.array(r.Hxy, copy=True); ph0 = np.array(r.cf_rad, copy=True)
+            _ = r.Hyx; _ = r.GyySx; _ = r.Gyx
+            try:
+                dfx = r.to_dataframe()
+            except Exception:
+                dfx = None
+            if not np.array_equal(np.asarray(r.Hxy), h0, equal_nan=True) or not np.array_equal(np.asarray(r.tf), h0, equal_nan=True) or not np.array_equal(np.asarray(r.cf_rad), ph0, equal_nan=True):
+                ck.violation("y = x delayed by %d samples: Hxy / tf / cf_rad change after Hyx, GyySx and the DataFrame export have been read (phase %.3f -> %.3f at f=%r, backend %s)" %
+                             (d, float(ph0[len(ph0) // 2]), float(np.asarray(r.cf_rad)[len(ph0) // 2]), float(r.f[len(ph0) // 2]), be), inp, tag="views:" + be)
+            elif dfx is not None and "Hxy" in dfx.columns and not np.array_equal(np.asarray(dfx["Hxy"]), h0, equal_nan=True):
+                ck.violation("y = delayed x: the exported Hxy column differs from the estimate (backend %s)" % be, inp, tag="views:" + be)
+            # a bin averaged over a single segment (L = N) keeps the phase: Hxy = Y/X there
+            from speckit.analysis import SpectrumAnalyzer
+            fq = ck.rng.uniform(0.08, 0.4) * fs / d
+            with np.errstate(all="ignore"):
+                r1 = SpectrumAnalyzer(np.vstack([x, y]), fs, backend=be, **kw).compute_single_bin(fq, L=N); runs += 1
+            th1 = 2 * np.pi * fq * d / fs
+            if int(r1.navg[0]) == 1 and abs(float(np.angle(r1.Hxy[0] * np.exp(1j * th1)))) > 0.35:
+                ck.violation("y = x delayed by %d samples, single segment (L = N): phase(Hxy)=%.3f rad at f=%r, expected %.3f (backend %s, order %d)" %
+                             (d, float(np.angle(r1.Hxy[0])), fq, -th1, be, order), dict(inp, single_bin=fq), tag="delay1:" + be)
         # (c) backends agree identically (to rounding)
         for be in ref:
             if be != "numba" and "numba" in ref and np.any(np.abs(ref[be] - ref["numba"]) > 1e-8 * (1 + np.abs(ref["numba"]))):
